@@ -568,6 +568,14 @@ func (self Reflect) clearField(m meta.Leafable, ptrVal reflect.Value) error {
 	return nil
 }
 
+// kind of the elements of a slice field, Invalid for a field that is no slice
+func sliceElemKind(fieldVal reflect.Value) reflect.Kind {
+	if fieldVal.Kind() != reflect.Slice {
+		return reflect.Invalid
+	}
+	return fieldVal.Type().Elem().Kind()
+}
+
 // ///////////////
 func WriteField(m meta.Leafable, ptrVal reflect.Value, v val.Value) error {
 	return Reflect{}.WriteField(m, ptrVal, v)
@@ -621,7 +629,7 @@ func (self Reflect) WriteFieldWithFieldName(fieldName string, m meta.Leafable, p
 		}
 	case val.FmtIdentityRefList:
 		el := v.(val.IdentRefList)
-		switch fieldVal.Elem().Kind() {
+		switch sliceElemKind(fieldVal) {
 		case reflect.String:
 			fieldVal.Set(reflect.ValueOf(el.Labels()))
 		default:
@@ -639,7 +647,7 @@ func (self Reflect) WriteFieldWithFieldName(fieldName string, m meta.Leafable, p
 		}
 	case val.FmtEnumList:
 		el := v.(val.EnumList)
-		switch fieldVal.Elem().Kind() {
+		switch sliceElemKind(fieldVal) {
 		case reflect.Int:
 			fieldVal.Set(reflect.ValueOf(el.Ids()))
 		case reflect.String:
